@@ -115,6 +115,7 @@ def one_run(cfg, path, fault_at=None, fault_prior_at=None, log=None):
             out.update(status="fault", exc=e)
         except Exception as e:   # noqa
             out.update(status="raised", exc=e)
+    out["sampler"] = getattr(a, "_sampler", None)
     return out
 
 
@@ -139,6 +140,9 @@ def check_cfg(chk, cfg, all_faults=True):
         chk.count(f"route:{cfg['route']}")
         chk.count(f"cadence:{e}")
         chk.count("pre_existing_checkpoint" if cfg["pre_existing"] else "new_file")
+        if smcrun.collapsed_population(ref):
+            chk.count("skipped:population_collapsed_rejected_by_library")
+            return
         if ref["status"] != "done":
             chk.case(None, None)
             chk.fail("run total", case0, repr(ref.get("exc")), {"level": "run", "clause": "raise"})
